@@ -406,4 +406,8 @@ def make_harness(case, tier):
 def run_case(case, tier):
     ctx = explore.explore(make_harness(case, tier), max_paths=200000, time_budget_s=120 if tier == "quick" else 900)
     r = driver.result_from_ctx(ctx)
+    # the functions of cache.py that were turned into generators and executed (this check does not use the import hook)
+    r['entered_extra'] = ['taskchain.cache.FileCache.get', 'taskchain.cache.FileCache.get_or_compute', 'taskchain.cache.FileCache.filepath',
+                          'taskchain.cache.' + ('JsonCache' if case[0] == 'json' else 'DataFrameCache') + '.save_value',
+                          'taskchain.cache.' + ('JsonCache' if case[0] == 'json' else 'DataFrameCache') + '.load_value']
     return r
